@@ -10,10 +10,10 @@ Open Scope Z_scope.
 Definition sec : Z := 1000000000.
 
 (** the code before the heartbeat fix: keepLockfileFresh refreshes whatever file it finds *)
-Definition cfg_nofix : config := Config (5 * sec) sec 2 8 250000000 false false (2 * sec) 0.
+Definition cfg_nofix : config := Config (5 * sec) sec 2 8 250000000 false false false false (2 * sec) 0.
 (** the code before the emptyCount fix (heartbeat fix applied): emptyCount is cumulative
     over the whole Lock call *)
-Definition cfg_asis : config := Config (5 * sec) sec 2 8 250000000 false true (2 * sec) 0.
+Definition cfg_asis : config := Config (5 * sec) sec 2 8 250000000 false true false false (2 * sec) 0.
 
 (** ** 1. the zombie heartbeat
 
@@ -33,16 +33,19 @@ Fixpoint zombie_rounds (n : nat) : list label :=
 Definition zombie_shape (s : state) : Prop :=
   file s = Some 1%nat /\ nexti s = 2%nat /\ hb s 1%nat = HDone /\ cs s 1%nat = CDead /\
   hb s 0%nat = HSleep 0%nat 0 (now s + 5 * sec) /\
-  content s 1%nat = FMeta (Some sec) (Some (now s)).
+  content s 1%nat = FMeta (Some sec) (Some (now s)) /\
+  (forall t ec i, cs s t <> CCreated ec i).
 
 Lemma zombie_round_keeps s : zombie_shape s ->
   exists s', run cfg_nofix s zombie_round = Some s' /\ zombie_shape s' /\ now s' = now s + 5 * sec.
 Proof.
-  intros (Hf & Hn & H1 & Hc & H0 & Hct).
+  intros (Hf & Hn & H1 & Hc & H0 & Hct & Hncr).
   unfold zombie_round. cbn [run].
   assert (Ht : can_tick cfg_nofix s (5 * sec) = true).
   { unfold can_tick. rewrite Hn. cbn [seq forallb]. rewrite H0, H1. cbn [hb_allows delta cfg_nofix].
-    apply andb_true_iff. split; [reflexivity|]. cbn [andb]. rewrite andb_true_r. apply Z.leb_le. unfold sec. lia. }
+    apply andb_true_iff. split.
+    - apply andb_true_iff. split; [reflexivity|]. cbn [andb]. rewrite andb_true_r. apply Z.leb_le. unfold sec. lia.
+    - apply forallb_forall. intros t _. destruct (cs s t) eqn:E; try reflexivity. destruct (Hncr _ _ _ E). }
   cbn [step]. rewrite Ht. cbn [step hb now file content]. rewrite H0.
   replace (now s + 5 * sec <=? now s + 5 * sec) with true by (symmetry; apply Z.leb_refl).
   rewrite Hf, Hct. cbn [checks cfg_nofix andb]. cbn [step hb]. rewrite upd_eq.
@@ -78,9 +81,10 @@ Proof.
   destruct (run cfg_nofix init zombie_prefix) as [s0|] eqn:E; [|vm_compute in E; discriminate].
   exists s0. split; [reflexivity|].
   assert (Hs0 : zombie_shape s0 /\ (exists ec u, cs s0 2%nat = CSleep ec u)).
-  { revert E. vm_compute. intros E; injection E; intros <-. cbn. repeat split; eauto. }
+  { revert E. vm_compute. intros E; injection E; intros <-. cbn. repeat split; eauto.
+    intros [|[|[|t]]] ec i; cbn; discriminate. }
   destruct Hs0 as [Hs0 Hw]. split; [apply Hs0|]. split; [exact Hw|].
-  intros n. destruct (zombie_rounds_keep n s0 Hs0) as (s & R & (Hf & Hn & H1 & Hc & H0 & Hct) & N).
+  intros n. destruct (zombie_rounds_keep n s0 Hs0) as (s & R & (Hf & Hn & H1 & Hc & H0 & Hct & _) & N).
   exists s, 1%nat, (Some sec), (Some (now s)). repeat split; auto.
   unfold is_stale. apply Z.ltb_ge. cbn. lia.
 Qed.
@@ -125,7 +129,7 @@ Qed.
 
 (** with a count that is reset by every successful decode the same schedule is harmless:
     the eighth gap read just sleeps again *)
-Definition cfg_resets : config := Config (5 * sec) sec 2 8 250000000 true true (2 * sec) 0.
+Definition cfg_resets : config := Config (5 * sec) sec 2 8 250000000 true true false false (2 * sec) 0.
 Example empty_count_run_with_reset :
   run cfg_resets init empty_count_run = None /\
   exists s, run cfg_resets init (firstn 86 empty_count_run) = Some s /\
@@ -178,4 +182,76 @@ Proof.
     assert (F : forallb (fun l => negb (is_kill l)) creation_gaps_run = true) by (vm_compute; reflexivity).
     rewrite forallb_forall in F. specialize (F _ H). discriminate.
   - rewrite P3. split; [exact P1|]. split; [exact P2|]. split; [discriminate | unfold sec; lia].
+Qed.
+
+(** ** 4. the documented race after a crash (filestorage.go, comment above FileStorage and in
+    the stale branch of Lock: "locking becomes imperfect if lock files are stale")
+
+    The holder (thread 0, process 0) is killed.  10 s later two waiters of different
+    processes both read the dead file and judge it stale.  Waiter 1 removes it, creates its
+    own lock file and holds.  Waiter 2's os.Remove - of the NAME - comes only now: it
+    removes waiter 1's live file, creates its own and holds too.  The code is the repaired
+    one; every heartbeat is on time.  Mutual exclusion among live holders is lost after a
+    recovery; it needs a dead holder first ([stale_removal_needs_dead_owner] in Proofs). *)
+Definition stale_race_run : list label :=
+  [LStart 0 0; LTryCreate 0; LWriteMeta 0; LKill 0;
+   LStart 1 1; LStart 2 2; LTick (10 * sec + 1);
+   LTryCreate 1; LOpenRead 1; LTryCreate 2; LOpenRead 2;
+   LRemove 1; LTryCreate 1; LWriteMeta 1;
+   LRemove 2; LTryCreate 2; LTick 1; LWriteMeta 2]%nat.
+
+Lemma stale_race_proj :
+  match run cfg_resets init stale_race_run with
+  | Some s => cs s 0%nat = CDead /\ cs s 1%nat = CHolding 1%nat /\ cs s 2%nat = CHolding 2%nat
+  | None => False
+  end.
+Proof. vm_compute. repeat split; reflexivity. Qed.
+
+Theorem mutex_after_crash_refuted_stale_race :
+  exists s i1 i2, run cfg_resets init stale_race_run = Some s /\
+    cs s 0%nat = CDead /\ cs s 1%nat = CHolding i1 /\ cs s 2%nat = CHolding i2 /\ i1 <> i2.
+Proof.
+  pose proof stale_race_proj as P.
+  destruct (run cfg_resets init stale_race_run) as [s|]; [|contradiction].
+  destruct P as (P0 & P1 & P2).
+  exists s, 1%nat, 2%nat. split; [reflexivity|]. split; [exact P0|]. split; [exact P1|]. split; [exact P2 | discriminate].
+Qed.
+
+(** ** 5. one write gap longer than the retries (slow storage)
+
+    The repaired code ([cfg_slow]: both fixes) on storage where a heartbeat's truncate ->
+    write gap lasts up to 2 s (H-live(eps) with eps = 2 s).  The holder's first heartbeat
+    truncates at 5 s; the waiter reads the empty file eight times, 250 ms apart, all within
+    that ONE gap, treats the live lock as stale, removes it and creates its own; the
+    heartbeat then writes the unlinked file.  Two holders, nobody killed, the heartbeat on
+    time.  The empty-count reset cannot help: there is no successful read in between. *)
+Definition cfg_slow : config := Config (5 * sec) sec 2 8 250000000 true true false false (2 * sec) (2 * sec).
+Definition gap_poll : list label := [LTick 250000000; LWake 1%nat; LTryCreate 1%nat; LOpenRead 1%nat].
+Definition long_gap_run : list label :=
+  [LStart 0 0; LTryCreate 0; LWriteMeta 0; LStart 1 1; LTryCreate 1; LOpenRead 1;
+   LTick (5 * sec); LHbWake 0; LWake 1; LTryCreate 1; LOpenRead 1]%nat ++
+  gap_poll ++ gap_poll ++ gap_poll ++ gap_poll ++ gap_poll ++ gap_poll ++ gap_poll ++
+  [LRemove 1; LTryCreate 1; LWriteMeta 1; LHbWrite 0]%nat.
+
+Lemma long_gap_proj :
+  match run cfg_slow init long_gap_run with
+  | Some s => cs s 0%nat = CHolding 0%nat /\ cs s 1%nat = CHolding 1%nat /\ now s = 6750000000
+  | None => False
+  end.
+Proof. vm_compute. repeat split; reflexivity. Qed.
+
+Theorem mutex_refuted_long_write_gap :
+  exists s i1 i2, run cfg_slow init long_gap_run = Some s /\
+    (forall p, ~ In (LKill p) long_gap_run) /\
+    cs s 0%nat = CHolding i1 /\ cs s 1%nat = CHolding i2 /\ i1 <> i2 /\
+    now s < 5 * sec + eps cfg_slow.
+Proof.
+  pose proof long_gap_proj as P.
+  destruct (run cfg_slow init long_gap_run) as [s|]; [|contradiction].
+  destruct P as (P1 & P2 & P3).
+  exists s, 0%nat, 1%nat. split; [reflexivity|]. split.
+  - intros p H.
+    assert (F : forallb (fun l => negb (is_kill l)) long_gap_run = true) by (vm_compute; reflexivity).
+    rewrite forallb_forall in F. specialize (F _ H). discriminate.
+  - rewrite P3. split; [exact P1|]. split; [exact P2|]. split; [discriminate | cbn; unfold sec; lia].
 Qed.
